@@ -788,6 +788,23 @@ class ListSub(list):
     """A list subclass."""
 
 
+class LenientItem(Item):
+    """An item that considers itself equal to anything that is not an item (like ``unittest.mock.ANY``, a wildcard
+    record): a value like any other - only identity tells a library's own placeholders from it."""
+
+    __slots__ = ()
+
+    def __eq__(self, other: Any) -> bool:
+        if not isinstance(other, Item):
+            return True
+        return self.key == other.key
+
+    def __ne__(self, other: Any) -> bool:
+        return not self.__eq__(other)
+
+    __hash__ = Item.__hash__
+
+
 class JobItem(Item):
     """An item that happens to be awaitable (a job the OWNER of the stream will run when it sees fit): payload.  Being
     awaited by anything but the test itself is reported as a foreign action."""
